@@ -144,6 +144,12 @@ class Gen:
             v = self.r.choice([1, "a", None, [1, 2], {"k": 1.5}, True])
         return {"__class__": "str", "__module__": "builtins", "__loader__": "JsonNode", "content": json.dumps(v), "is_json": True}
 
+    def slot(self, d, usual):
+        """a structural child slot: usually the well-formed content, sometimes an arbitrary node (any kind, any name)"""
+        if d >= 0 and self.r.random() < 0.22:
+            return self.node(d)
+        return usual()
+
     def kids(self, depth, lo=0, hi=3):
         return [self.node(depth) for _ in range(self.r.randint(lo, hi))]
 
@@ -176,7 +182,7 @@ class Gen:
         if d < 0 or self.r.random() < 0.6:
             return self.hdr("NdArrayNode", type="numpy", file="m2.npy")
         cells = self.kids(d, 0, 3)
-        return self.hdr("NdArrayNode", type="json", content=cells, shape=self.tuple_of([self.json_node(len(cells))]))
+        return self.hdr("NdArrayNode", type="json", content=cells, shape=self.slot(d, lambda: self.tuple_of([self.json_node(len(cells))])))
 
     def b_SparseMatrixNode(self, d):
         return self.hdr("SparseMatrixNode", type="scipy", file="m3.npz")
@@ -209,7 +215,7 @@ class Gen:
         return st
 
     def b_DefaultDictNode(self, d):
-        return self.hdr("DefaultDictNode", content={"main": self.dict_of([("k", self.node(d))] if self.r.random() < 0.5 else []),
+        return self.hdr("DefaultDictNode", content={"main": self.slot(d, lambda: self.dict_of([("k", self.node(d))] if self.r.random() < 0.5 else [])),
                                                     "default_factory": self.node(d) if self.r.random() < 0.5 else self.json_node(None)})
 
     def b_ListNode(self, d):
@@ -225,11 +231,11 @@ class Gen:
         return self.hdr("MethodNode", content={"func": self.r.choice(["fit", "__class__", "predict", "__init__"]), "obj": self.node(d)})
 
     def b_PartialNode(self, d):
-        return self.hdr("PartialNode", content={"func": self.node(d), "args": self.tuple_of(self.kids(d, 0, 2)),
-                                                "kwds": self.dict_of([]), "namespace": self.dict_of([])})
+        return self.hdr("PartialNode", content={"func": self.node(d), "args": self.slot(d, lambda: self.tuple_of(self.kids(d, 0, 2))),
+                                                "kwds": self.slot(d, lambda: self.dict_of([])), "namespace": self.slot(d, lambda: self.dict_of([]))})
 
     def b_ConstructorFromReduceNode(self, d):
-        return self.hdr("ConstructorFromReduceNode", content=self.tuple_of(self.kids(d, 0, 2)))
+        return self.hdr("ConstructorFromReduceNode", content=self.slot(d, lambda: self.tuple_of(self.kids(d, 0, 2))))
 
     def b_ObjectNode(self, d):
         st = self.hdr("ObjectNode")
@@ -241,7 +247,7 @@ class Gen:
         return st
 
     def b_OperatorFuncNode(self, d):
-        return self.hdr("OperatorFuncNode", attrs=self.tuple_of([self.json_node("a")]))
+        return self.hdr("OperatorFuncNode", attrs=self.slot(d, lambda: self.tuple_of([self.json_node("a")])))
 
     def b_MaskedArrayNode(self, d):
         return self.hdr("MaskedArrayNode", content={"data": self.node(d), "mask": self.node(d)})
@@ -250,18 +256,18 @@ class Gen:
         return self.hdr("DTypeNode", content=self.node(d))
 
     def b_RandomStateNode(self, d):
-        return self.hdr("RandomStateNode", content=self.dict_of([("bit_generator", self.json_node("MT19937"))]))
+        return self.hdr("RandomStateNode", content=self.slot(d, lambda: self.dict_of([("bit_generator", self.json_node("MT19937"))])))
 
     def b_RandomGeneratorNode(self, d):
         bg = self.dict_of([("bit_generator", self.json_node(self.r.choice(["PCG64", "MT19937", "default_rng"])))])
         if self.protocol == 0:
             return self.hdr("RandomGeneratorNode", content={"bit_generator": self.r.choice([{"bit_generator": "PCG64", "state": {}}, {}, None, "x"])})
-        return self.hdr("RandomGeneratorNode", content={"bit_generator": bg, "seed_seq": self.dict_of([("entropy", self.json_node(1))])})
+        return self.hdr("RandomGeneratorNode", content={"bit_generator": self.slot(d, lambda: bg), "seed_seq": self.slot(d, lambda: self.dict_of([("entropy", self.json_node(1))]))})
 
     def reduce_like(self, loader, d):
         st = self.hdr(loader)
-        st["__reduce__"] = {"args": self.tuple_of(self.kids(d, 0, 2))}
-        st["content"] = self.dict_of([("a", self.node(d))] if self.r.random() < 0.6 else [])
+        st["__reduce__"] = {"args": self.slot(d, lambda: self.tuple_of(self.kids(d, 0, 2)))}
+        st["content"] = self.slot(d, lambda: self.dict_of([("a", self.node(d))] if self.r.random() < 0.6 else []))
         return st
 
     def b_TreeNode(self, d):
